@@ -1,5 +1,5 @@
 (* Properties/C11.v — Everything storrent sends to a peer is protocol-conformant. *)
-From Storrent Require Import Base.Bytes Base.Bencode Gen.Consts Model.Wire Model.PeerCore Proof.PeerCore Proof.Pex Proof.NoDupReqs Proof.Sent.
+From Storrent Require Import Base.Bytes Base.Bencode Gen.Consts Model.Wire Model.PeerCore Proof.PeerCore Proof.Pex Proof.NoDupReqs Proof.Sent Proof.Avail Proof.BmCodec Proof.Advertise.
 Open Scope N_scope.
 
 (* Every message that maybeRequest's loop adds to the wire, for ANY number of loop
@@ -92,3 +92,24 @@ Theorem c11_cancels_outstanding : forall s ballast o k,
                NoDup sent /\ incl sent (uncancelled s).
 Proof. exact step_cancels. Qed.
 Print Assumptions c11_cancels_outstanding.
+
+(* The wire form of a bitmap is exact: decoding the bytes written for a well-formed bitmap (bits
+   sorted, inside the allocated bytes) gives back that bitmap — the pieces held and no spare bit. *)
+Theorem c11_bitmap_codec : forall b, wf_bm b -> bm_of_bytes (bm_to_bytes b) = b.
+Proof. exact bm_codec. Qed.
+Print Assumptions c11_bitmap_codec.
+
+(* The initial advertisement of peer.Run (Model: initial_adv, compared on every run with what a remote
+   end of a real peer.Run receives), for every torrent of n >= 1 pieces, every set of pieces held
+   (all below n, the bitmap no longer than ceil(n/8) bytes), to a peer with or without the fast
+   extension: every message is well-formed for n pieces (adv_set does not fail: a Bitfield has
+   exactly ceil(n/8) bytes and no spare bit set — in particular when n is a multiple of 8 —,
+   every Have is below n), what the remote understands after the last one is exactly the set
+   of pieces held, and HaveAll / HaveNone go only to peers that support the fast extension. *)
+Theorem c11_initial_advertisement : forall g can_fast my,
+  let n := num_pieces g in
+  wf_bm my -> (forall i, In i (bits my) -> i < n) -> blen my <= (n + 7) / 8 -> 0 < n ->
+  adv_set n (initial_adv (Some g) can_fast my) [] = Some (bits my) /\
+  Forall (fun m => match m with HaveAll | HaveNone => can_fast = true | _ => True end) (initial_adv (Some g) can_fast my).
+Proof. exact adv_conformant. Qed.
+Print Assumptions c11_initial_advertisement.
